@@ -374,15 +374,16 @@ fn dfs_alphabet() -> (Vec<Op>, Vec<String>) {
             }
         }
     }
+    // the two message ids differ, but agree modulo every small power of two up to 64
     for p in paths.iter() {
-        for mid in [10u16, 11] {
+        for mid in [10u16, 74] {
             for con in [true, false] {
                 ops.push(Op::Changed { path: p.clone(), mid, con });
             }
         }
     }
     for ep in 0..2u8 {
-        for mid in [10u16, 11] {
+        for mid in [10u16, 74] {
             ops.push(Op::Ack { ep, mid });
         }
     }
@@ -393,7 +394,10 @@ fn random_history(r: &mut Rng, len: usize, paths: &[String]) -> Vec<Op> {
     let toks: [&[u8]; 4] = [&[], &[1], &[2, 2], &[1, 2, 3, 4, 5, 6, 7, 8]];
     let mut ops = Vec::with_capacity(len);
     let neps = *r.pick(&[1u64, 2, 3, 6]);
-    let mids: Vec<u16> = (0..r.urange(1, 8)).map(|_| r.next_u64() as u16).collect();
+    // message ids that collide under truncation / hashing (same low bits, same high byte, ...)
+    let base = r.next_u64() as u16;
+    let offsets = [0u16, 1, 2, 16, 32, 64, 128, 256, 512, 1024, 4096, 0x8000, 0x00ff, 0xff00];
+    let mids: Vec<u16> = (0..r.urange(1, 8)).map(|_| if r.chance(3, 4) { base.wrapping_add(*r.pick(&offsets)) } else { r.next_u64() as u16 }).collect();
     for _ in 0..len {
         let path = r.pick(paths).clone();
         let ep = r.below(neps) as u8;
@@ -557,7 +561,13 @@ fn directed_long(rep: &mut Report, level: u32, shard: u64, nshards: u64, which: 
                 }
                 match variant {
                     0 => ops.push(Op::Ack { ep: 1, mid }),
-                    1 => ops.push(Op::Ack { ep: 1, mid: mid.wrapping_sub(1) }), // stale id
+                    1 => {
+                        // stale ids: the previous round, and ids that share their low bits with the current one
+                        ops.push(Op::Ack { ep: 1, mid: mid.wrapping_sub(1) });
+                        ops.push(Op::Ack { ep: 1, mid: mid.wrapping_sub(64) });
+                        ops.push(Op::Ack { ep: 1, mid: mid.wrapping_add(256) });
+                        ops.push(Op::Ack { ep: 1, mid }); // ... and then the right one
+                    }
                     2 => ops.push(Op::Ack { ep: 3, mid }),                     // other endpoint
                     3 => {
                         for _ in 0..5 {
